@@ -130,6 +130,70 @@ CHECKS["C13"] = (
     "(fallback: entry stages); none and no constant otherwise.",
     "push constant types are kept <= 128 bytes.",
     "DESIGN.md §8 C13")
+CHECKS["C05"] = (
+    "exploration",
+    "runtime monitoring: rustc accept/reject of the module with bytemuck checks on, and "
+    "offset_of!/size_of read at run time from the same structs, judged by an independent WGSL "
+    "layout calculator (cross-checked with naga's Layouter each run)",
+    "Per (shader, representation): the module generated with the bytemuck host-shareable switch "
+    "on is compiled (fix-point loop keeps per-module verdicts and messages); the same shader "
+    "without derives is compiled and its struct layouts are read at run time. Soundness "
+    "(accepted => layout == WGSL, observed on the accepted module itself), completeness "
+    "(layout differs => rejected, and every differing member/size is named by an assertion), "
+    "precision (a named member really differs). Workload includes vec3 traps, all matrix "
+    "shapes, nesting, arrays, @size/@align, isolated single-offset mismatches, structs that are "
+    "host-shareable only through members of members.",
+    "nalgebra is a stand-in crate; bool members have no layout and are excluded; the layout "
+    "model follows naga where naga deviates from the WGSL text (struct alignment ignores "
+    "member @align when nested).",
+    "DESIGN.md §8 C05")
+CHECKS["C06"] = (
+    "exploration",
+    "runtime monitoring: TypeId/type_name/offset_of of every field of the compiled structs and "
+    "the syn item inventory, compared with the documented leaf-type table composed by the "
+    "workload generator",
+    "Every field of every emitted struct of the struct and entry families, under Rust / Glam / "
+    "Nalgebra, is compared by TypeId with the expected Rust type expression; names and order "
+    "come from the item inventory; trailing runtime arrays must be Vec<E> marked runtime-sized. "
+    "The leaf table (3 scalar kinds + f64, vec2-4, 9 matrix shapes x 2, atomics, nested arrays) "
+    "is covered by directed shaders in every run.",
+    "plain-representation matrices as pinned by the repository's snapshot; nalgebra stand-in.",
+    "DESIGN.md §8 C06")
+CHECKS["C08"] = (
+    "exploration",
+    "runtime monitoring: set (with multiplicity) of top-level pub struct items of every returned "
+    "module vs the reachability closure computed from the workload spec",
+    "All shaders of the struct, entry and bind families under all their option sets: the "
+    "emitted struct names must equal exactly {reachable from a module-scope variable through "
+    "members/arrays/arrays of arrays/runtime arrays} + {entry parameters that are not an entry "
+    "result}, each once. Roles generated: host, push, private, workgroup, vertex-in, fragment-in, "
+    "output only, output reused as input, host+input, host+output, local only, unused.",
+    "helper types VertexEntry/FragmentEntry/OverrideConstants are not WGSL structs.",
+    "DESIGN.md §8 C08")
+CHECKS["C09"] = (
+    "exploration",
+    "runtime monitoring: trait-implementation probes (autoref specialisation) in the compiled "
+    "module, derive lists / repr / assertions from the item inventory, and equality of two "
+    "projections of the output across option sets",
+    "Full 16 x 3 option matrix for a sample of shaders plus 3-4 option sets for all others: "
+    "each struct's Debug/Clone/Copy/PartialEq/Pod/Zeroable/ShaderType/Serialize/Deserialize "
+    "and repr(C) and layout assertions must follow the role x switch table; outputs of one "
+    "shader may differ only in derive lists/assertions (same representation) or additionally "
+    "field types (different representation).",
+    "trait probes need a compiling module; for rejected modules the derive list is observed.",
+    "DESIGN.md §8 C09")
+CHECKS["C10"] = (
+    "exploration",
+    "runtime monitoring: byte images written by encase Storage/UniformBuffer for probe values "
+    "with a unique number per scalar component, decoded at the offsets given by an independent "
+    "WGSL layout calculator",
+    "Every host-shareable struct built from glam-representable members (incl. vec3 traps, "
+    "arrays of vec3, mat3x3, nesting, runtime arrays with 0/1/2/4 elements, @size/@align "
+    "members) in the encase+glam configuration: each component must sit at its WGSL offset, the "
+    "image length must be the WGSL size; a module that does not compile in that configuration "
+    "although all its host structs are representable is a violation too.",
+    "f64 and non-square matrices are outside (encase/glam have no equivalent).",
+    "DESIGN.md §8 C10")
 
 NOT_YET = {
 }
